@@ -25,6 +25,7 @@ func init() {
 			"N8 every iteration over a struct's members in an IsAssignableFrom implementation applies the relation, records a failure or found the TypeIds equal; N9 no return after a FilterJson call in package core hands back the call's input. " +
 			"N10 in the projection family a reader of ArrayType.Elem also reads ArrayType.Dim. " +
 			"N11 memo-key completeness for members skipped in a type relation (the key determines what the skipped check depends on). " +
+			"N12 the int arm of BuiltinType.IsValidJson returns no constant nil; N13 the float fallback of the int filter is dominated by a test of the literal's text. " +
 			"NOT decided: idempotence, validity of the rebuilt JSON, int/float normalisation - all value-level.",
 		Assumptions: commonAssumptions,
 	}
@@ -41,6 +42,7 @@ func init() {
 			"T9 no arm of SplitExp.FindTypedRefs hands the element type unchanged to the value's FindTypedRefs (one known finding: the DisabledExp arm); T10 (= N8) every struct member is checked. " +
 			"T11 memo-key completeness for skipped members; T12 no ArrayDim test sits only in the not-a-map arm of a MapDim test on the same type (the outer dimension is examined first). " +
 			"T13 every expanded wildcard binding is compiled on every path before it joins the binding list. " +
+			"T14 every nil return of BindStms.compile has entered the loop that looks the parameters up in the binding table. " +
 			"NOT decided: soundness of the whole relation, projection, array dimensions, error locations: this decides a few mechanisms, not the property's behaviour.",
 		Assumptions: commonAssumptions,
 	}
@@ -121,6 +123,8 @@ func runC17(c *an.Ctx) {
 	ruleN9(c)
 	ruleN10(c)
 	ruleMemoKey(c, "N11", "martian/syntax")
+	ruleN12(c)
+	ruleN13(c)
 }
 
 func ruleN1(c *an.Ctx) {
@@ -472,6 +476,7 @@ func runC07(c *an.Ctx) {
 	ruleMemoKey(c, "T11", "martian/syntax")
 	ruleT12(c, "T12")
 	ruleT13(c)
+	ruleT14(c)
 }
 
 func ruleT2(c *an.Ctx) {
